@@ -649,6 +649,17 @@ func (m *specM) rep(n *specNode, count, pos, dir int, k func(int) bool) bool {
 // verifSpecFind returns the snapshot (same layout as verifSnap) of the match the
 // reference search finds from start; ngroups is the largest group number.
 func verifSpecFind(root *specNode, ngroups int, t []rune, start int, rtl bool) []int {
+	nums := make([]int, ngroups)
+	for i := range nums {
+		nums[i] = i + 1
+	}
+	return verifSpecFindNums(root, nums, t, start, rtl)
+}
+
+// verifSpecFindNums: as verifSpecFind, the groups reported being those numbered nums[0], nums[1], ... in
+// that order (sparse numbering: the order of Match.Groups is ascending group number).
+func verifSpecFindNums(root *specNode, nums []int, t []rune, start int, rtl bool) []int {
+	ngroups := len(nums)
 	m := &specM{t: t, origin: start}
 	try := func(p, dir int) []int {
 		m.caps = m.caps[:0]
@@ -661,7 +672,7 @@ func verifSpecFind(root *specNode, ngroups int, t []rune, start int, rtl bool) [
 			s, e = e, s
 		}
 		snap := []int{s, e - s, ngroups + 1, 1, s, e - s}
-		for g := 1; g <= ngroups; g++ {
+		for _, g := range nums {
 			cnt := 0
 			for _, c := range m.caps {
 				if c.g == g {
